@@ -97,6 +97,7 @@ type zkSession struct {
 	conn      net.Conn
 	expTimer  *time.Timer
 	seq       int // connection generation
+	lastPath  string
 }
 
 // ZkOp describes one operation at its linearisation point.
@@ -142,7 +143,6 @@ type ZkServer struct {
 	AutoExpire bool
 	Log        func(op ZkOp)
 	Hook       ZkHook
-	lastPath   string
 }
 
 func NewZkServer() *ZkServer {
@@ -501,6 +501,24 @@ func (s *ZkServer) NodeInfo(p string) (string, int32, int64, bool) {
 	return string(n.data), n.version, n.owner, true
 }
 
+// OwnerClient names the client whose live session owns the ephemeral node p:
+// "" if the node is absent, "-" if it is persistent.
+func (s *ZkServer) OwnerClient(p string) string {
+	s.mu.Lock()
+	defer s.mu.Unlock()
+	n := s.nodes[p]
+	if n == nil {
+		return ""
+	}
+	if n.owner == 0 {
+		return "-"
+	}
+	if se := s.sessions[n.owner]; se != nil {
+		return se.client
+	}
+	return "?"
+}
+
 // ChildrenOf lists children names.
 func (s *ZkServer) ChildrenOf(p string) []string {
 	s.mu.Lock()
@@ -668,8 +686,8 @@ func (s *ZkServer) serve(c net.Conn, client string) {
 		if hang {
 			continue
 		}
-		if hk := s.Hook; hk != nil && s.lastPath != "" {
-			if hk.AfterZk(client, opName(op), s.takeLastPath(), code) {
+		if lp := s.takeLastPath(sess); s.Hook != nil && lp != "" {
+			if s.Hook.AfterZk(client, opName(op), lp, code) {
 				s.detach(sess, seq)
 				return
 			}
@@ -691,11 +709,11 @@ func (s *ZkServer) serve(c net.Conn, client string) {
 	}
 }
 
-func (s *ZkServer) takeLastPath() string {
+func (s *ZkServer) takeLastPath(sess *zkSession) string {
 	s.mu.Lock()
 	defer s.mu.Unlock()
-	p := s.lastPath
-	s.lastPath = ""
+	p := sess.lastPath
+	sess.lastPath = ""
 	return p
 }
 
@@ -778,7 +796,7 @@ func (s *ZkServer) handle(sess *zkSession, client string, op int32, in *jin) (co
 	out := &jout{}
 	rec := ZkOp{Client: client, Session: sess.id, Op: opName(op), Path: path, Data: data, Version: version, Flags: flags}
 	finish := func(c int32) (int32, []byte, bool, bool) {
-		s.lastPath = path
+		sess.lastPath = path
 		rec.Res = ZkErrName(c)
 		s.post(&rec, path)
 		s.logOp(rec)
